@@ -11,6 +11,7 @@ import (
 	"github.com/enbility/ship-go/logging"
 	"github.com/enbility/spine-go/api"
 	"github.com/enbility/spine-go/model"
+	"github.com/enbility/spine-go/util"
 )
 
 type DeviceRemote struct {
@@ -244,6 +245,13 @@ func (d *DeviceRemote) AddEntityAndFeatures(initialData bool, data *model.NodeMa
 					entity.AddFeature(f)
 				}
 			}
+		}
+
+		// the node management feature is needed to process any message of the
+		// device, so keep it even if the device did not announce it (again)
+		if reflect.DeepEqual(entityAddress, DeviceInformationAddressEntity) &&
+			entity.FeatureOfAddress(util.Ptr(model.AddressFeatureType(NodeManagementFeatureId))) == nil {
+			entity.AddFeature(NewFeatureRemote(NodeManagementFeatureId, entity, model.FeatureTypeTypeNodeManagement, model.RoleTypeSpecial))
 		}
 	}
 
